@@ -3,7 +3,7 @@
    The theorems speak about the md5 PRE-IMAGE (`preimage`); md5 itself is
    outside the model. *)
 From Coq Require Import List String ZArith QArith Bool Permutation.
-From NV Require Import Base.Exn Base.PyVal Model.HashEnc Proofs.StringP Proofs.HashEncP Proofs.C12P Proofs.C12TwiceP Gen.Tables.
+From NV Require Import Base.Exn Base.PyVal Model.HashEnc Proofs.StringP Proofs.HashEncP Proofs.C12P Proofs.C12TwiceP Proofs.C12FlipP Gen.Tables.
 Import ListNotations.
 Local Close Scope Q_scope.
 Local Open Scope string_scope.
@@ -99,6 +99,17 @@ Proof. exact sensitive_twice. Qed.
 Example C12_twice_hashed_keys_present :
   In "preprocessing" fp_default_keys /\ In "preprocessing_options" fp_default_keys.
 Proof. split; vm_compute; tauto. Qed.
+
+(* switching the plateau search on or off (the flag as a bool): the pre-images differ -- the
+   flag itself is hashed right after the model key, before every setting whose contribution
+   depends on it *)
+Theorem C12_sensitive_plateau_flag : forall fp fp' x y b s s',
+  agree_except "optimal_fit_edelta" fp fp' ->
+  fp_get fp "optimal_fit_edelta" = Ok (VBool b) ->
+  fp_get fp' "optimal_fit_edelta" = Ok (VBool (negb b)) ->
+  preimage fp_default_keys fp x y = Ok s -> preimage fp_default_keys fp' x y = Ok s' ->
+  s <> s'.
+Proof. exact flip_changes. Qed.
 
 (* --- structured values: the full statement is FALSE of the faithful model --- *)
 (* changing ONE element of a list/tuple/parameter always shows ... *)
